@@ -126,6 +126,14 @@ def run_checks(checks, runs=None):
         r = sh(f"{TARGET}/release/hposim check {c} quick{extra}", cwd=SIM)
         lines = [l for l in r.stdout.splitlines() if l.startswith("VIOLATION") or l.startswith("  class=")]
         res[c] = {"exit": r.returncode, "classes": [l.strip() for l in lines if l.startswith("  class=")][:4]}
+        # every reported replay file must reproduce the violation in a fresh process, twice, with the same digest
+        paths = [l.split("replay=")[1].strip() for l in lines if l.startswith("VIOLATION") and "replay=" in l][:2]
+        rep = []
+        for pth in paths:
+            outs = [sh(f"{TARGET}/release/hposim replay {pth}", cwd=SIM) for _ in range(2)]
+            dig = [[l for l in o.stdout.splitlines() if l.startswith("replay of")] for o in outs]
+            rep.append({"file": os.path.basename(pth), "exit": [o.returncode for o in outs], "same_digest": dig[0] == dig[1], "violation_line": all("VIOLATION" in o.stdout for o in outs)})
+        res[c]["replays"] = rep
     return res
 
 
